@@ -165,3 +165,16 @@ Theorem name_filename_roundtrip_general_refuted :
   exists n, infix "_" n = false /\ basis_name_from_filename (transform_basis_name n) <> lower n.
 Proof. exists "*sl/". split; [vm_compute; reflexivity | vm_compute; discriminate]. Qed.
 Print Assumptions name_filename_roundtrip_general_refuted.
+
+(* ... and the law that does hold for names of any length: when the lower-case name has no underscore and no '*'
+   directly followed by "sl" (Proofs/NameRoundtrip.v `good`), file name -> name undoes name -> file name *)
+From BSE Require Proofs.NameRoundtrip.
+Theorem name_filename_roundtrip_general :
+  forall n, NameRoundtrip.good (lower n) = true -> basis_name_from_filename (transform_basis_name n) = lower n.
+Proof. exact NameRoundtrip.name_roundtrip_lemma. Qed.
+Print Assumptions name_filename_roundtrip_general.
+
+Example name_roundtrip_demo :
+  NameRoundtrip.good (lower "6-31G**/STO-3G*") = true /\ transform_basis_name "6-31G**/STO-3G*" = "6-31g_st__st__sl_sto-3g_st_" /\
+  NameRoundtrip.good "*sl/" = false.
+Proof. vm_compute. repeat split; reflexivity. Qed.
